@@ -41,10 +41,10 @@ class Export:
         self.wall = 0.0
 
 
-def run_export(module, cfg, cwd, consumer, timeout=900, heap="3g"):
+def run_export(module, cfg, cwd, consumer, timeout=900, heap="3g", env=None):
     """tlc (1 worker, ACTION_CONSTRAINT Export) | harness replay. Returns Export."""
     ex = Export(cfg)
-    tres, rc, out = core.tlc_pipe(module, cfg, consumer, cwd=cwd, timeout=timeout, heap=heap, workers=1)
+    tres, rc, out = core.tlc_pipe(module, cfg, consumer, cwd=cwd, timeout=timeout, heap=heap, workers=1, env=env)
     ex.rc = rc
     ex.wall = tres.wall_s
     recs, ex.hang = parse_lines(out)
@@ -62,9 +62,9 @@ def run_export(module, cfg, cwd, consumer, timeout=900, heap="3g"):
     return ex
 
 
-def run_exports(module, cfgs, cwd, consumer, parallel=4, timeout=900, heap="3g"):
+def run_exports(module, cfgs, cwd, consumer, parallel=4, timeout=900, heap="3g", env=None):
     with concurrent.futures.ThreadPoolExecutor(max_workers=parallel) as pool:
-        futs = [pool.submit(run_export, module, c, cwd, consumer, timeout, heap) for c in cfgs]
+        futs = [pool.submit(run_export, module, c, cwd, consumer, timeout, heap, env) for c in cfgs]
         return [f.result() for f in futs]
 
 
@@ -91,9 +91,9 @@ def trace_result(res):
     return json.loads("".join(out))
 
 
-def validate(module, cfg, trace_path, cwd, timeout=900, heap="3g"):
+def validate(module, cfg, trace_path, cwd, timeout=900, heap="3g", env=None):
     """Runs the trace spec. Returns (consumed_ok, result_json, TlcResult)."""
-    ok, res = core.validate_trace(module, cfg, trace_path, cwd=cwd, timeout=timeout, heap=heap)
+    ok, res = core.validate_trace(module, cfg, trace_path, cwd=cwd, timeout=timeout, heap=heap, extra_env=env)
     if res.error and not res.violated:
         raise core.ToolError("trace validation failed to evaluate: %s" % res.error[:600])
     rj = trace_result(res)
